@@ -95,9 +95,9 @@ def relevant(pid, clause, prog):
     """Is this clause a violation of property pid?  C12 is composite (fail-closed over the fringe scenarios)."""
     if clause.startswith(pid + '.'):
         return True
-    if pid == 'C15' and clause in ('C01.SegLenMin', 'C01.VrLenMin', 'C01.SegPadCount'):
-        return True      # "using flagged padding where the format demands a minimum length"
-    if pid == 'C20' and prog.get('meta', {}).get('kind') == 'rejected' and clause in ('C15.Writable', 'C12.MustRaise'):
+    if pid == 'C15' and clause[:3] in ('C01', 'C02') and prog.get('meta', {}).get('kind') in ('size', 'tinyframe', 'tinynofmt', 'manylf'):
+        return True      # "written successfully, using flagged padding where the format demands a minimum length": a file no strict reader accepts is not written successfully"
+    if pid == 'C20' and prog.get('meta', {}).get('kind') == 'rejected' and clause in ('C15.Writable', 'C12.MustRaise', 'C14.HistoryIndependent'):
         return True      # "as if the call had never been made": the history without the rejected call is in process 2
     if pid == 'C12' and prog.get('meta', {}).get('fringe') and clause[:3] in ('C01', 'C02', 'C03', 'C04', 'C05', 'C07', 'C08', 'C09', 'C16'):
         return True
